@@ -227,6 +227,15 @@ pub fn bank_program(seed: u64, p: u64, cart_type: u8, rom_code: u8) -> (Vec<u8>,
     let off = 0x3000 + 0x10 * k;
     image[off..off + a.bytes.len()].copy_from_slice(&a.bytes);
   }
+  // the last two bytes of every bank: INC C; JP nn - the jump is cut by the end of the window,
+  // its target comes from video RAM (0x8000/0x8001, set up by the driver: a stub in bank 0)
+  // whatever bank is mapped and whatever lies behind that bank in the ROM image
+  for bank in 0..banks {
+    let off = bank * 0x4000;
+    image[off + 0x3ffe] = 0x0c;
+    image[off + 0x3fff] = 0xc3;
+  }
+  image[0x3040..0x3043].copy_from_slice(&[0x81, 0x4f, 0xc9]); // ADD A,C; LD C,A; RET
   // bank-0 tail that falls through 0x3FFF -> 0x4000
   for i in 0x3ff8..0x4000usize {
     image[i] = 0x0c; // INC C
@@ -270,6 +279,10 @@ pub fn bank_program(seed: u64, p: u64, cart_type: u8, rom_code: u8) -> (Vec<u8>,
     a.ld_a(*b);
     a.ldh_to(0x80 + i as u8);
   }
+  a.ld_a(0x40);
+  a.ld_a_to(0x8000);
+  a.ld_a(0x30);
+  a.ld_a_to(0x8001);
   a.b(&[0xfb]);
   let main = a.here();
   let mbc1 = cart_type <= 0x03;
@@ -280,7 +293,16 @@ pub fn bank_program(seed: u64, p: u64, cart_type: u8, rom_code: u8) -> (Vec<u8>,
     if a.here() > 0x2d00 {
       break;
     }
-    match rng.below(17) {
+    match rng.below(19) {
+      17 | 18 => {
+        // leave the window through its last instruction, under an odd-numbered bank (an odd
+        // low register value never maps bank 0, whose last bytes are the fall-through tail)
+        let k = 1 + 2 * rng.below((banks.min(32) / 2) as u64) as u8;
+        a.ld_a(k);
+        a.ld_a_to(0x2100);
+        a.call(0x7ffe);
+        desc.push_str(&format!(" tailjump{:02X}", k));
+      }
       15 | 16 => {
         // banked code that maps another bank over itself and reads the window afterwards
         a.ld_a(rng.u8());
@@ -409,18 +431,33 @@ pub fn run(ctx: &mut Ctx) {
   let mut frames_compared = 0u64;
   let mut cold_compared = 0u64;
   let mut cache_restarts = 0u64;
+  let mut ended_by_panic = 0u64;
   // one extra program (C03 and C04, both tiers) whose translated footprint exceeds the code cache several times
   let extra = if ctx.arg_u64("cache-pressure", 1) != 0 { 1 } else { 0 };
-  for p in 0..nprog + extra {
+  for p in 0..nprog + 2 * extra {
     if !ctx.mine(p) {
       continue;
     }
     ctx.intent(&[p, 0]);
     let pressure = p == nprog;
+    // and one whose blocks take as long as a block can (65536 machine cycles)
+    let long_duration = p == nprog + 1;
     // ~4 block steps per routine, ~5 KiB of host code per routine: the quick tier
     // fills the 8 MiB cache about twice, the thorough tier runs the whole program
-    let steps: u64 = if pressure { if thorough { 45_000 } else { 14_000 } } else { steps };
-    let (image, desc) = if pressure { crate::gen::pressure::cache_pressure_image() } else { make_program(&kind, seed, p) };
+    let steps: u64 = if pressure {
+      if thorough { 45_000 } else { 14_000 }
+    } else if long_duration {
+      if thorough { 520 } else { 72 }
+    } else {
+      steps
+    };
+    let (image, desc) = if pressure {
+      crate::gen::pressure::cache_pressure_image()
+    } else if long_duration {
+      crate::gen::pressure::long_duration_image()
+    } else {
+      make_program(&kind, seed, p)
+    };
     let mut core = support::core_from_image(&image);
     let mut obs = Observer::new();
     let path = stream_path(&dir, &kind, p);
@@ -447,6 +484,14 @@ pub fn run(ctx: &mut Ctx) {
         verif::stop();
         if r.is_err() {
           // the interpreter refused to go on (ran into data): the stream ends here
+          ended_by_panic += 1;
+          if std::env::var("GBV_DEBUG").is_ok() {
+            let at = core.registers.ip;
+            use std::io::Write as _;
+            if let Ok(mut f) = std::fs::OpenOptions::new().create(true).append(true).open("/tmp/c04_debug.log") {
+              let _ = writeln!(f, "program {} [{}] ended by an interpreter panic at step {} pc {:04X}", p, desc, s, at);
+            }
+          }
           break;
         }
         obs.feed();
@@ -664,8 +709,8 @@ pub fn run(ctx: &mut Ctx) {
   // it; the jit build must not run out of its buffer.
   #[cfg(feature = "jit")]
   {
-    if role != "write" && kind == "c04" && ctx.mine(nprog + 1) {
-      ctx.intent(&[nprog + 1, 0]);
+    if role != "write" && kind == "c04" && ctx.mine(nprog + 2) {
+      ctx.intent(&[nprog + 2, 0]);
       let mut image = support::make_image(0x01, 0x01, 0x00);
       for i in 0..image.len() {
         image[i] = [0x76u8, 0x18, 0xfd, 0x00][i & 3];
@@ -776,11 +821,14 @@ pub fn run(ctx: &mut Ctx) {
           &format!("a bank filled with 16383 x DAA + RET, entered with {} bytes of the code cache left: the jit build panicked ({}); the interpreter-only build runs the block", room, msg),
         );
       }
-      ctx.distinct_key(hash_words(&[nprog + 1, 0xdaa]));
+      ctx.distinct_key(hash_words(&[nprog + 2, 0xdaa]));
     }
   }
   ctx.intent_clear();
   ctx.count("evaluations", evaluations);
+  if role == "write" {
+    ctx.count("interp:programs-ended-by-a-panic", ended_by_panic);
+  }
   let tag = if role == "write" { "interp" } else { "jit" };
   ctx.count(&format!("{}:dispatches:vblank", tag), obs_tot.dispatches[0]);
   ctx.count(&format!("{}:dispatches:stat", tag), obs_tot.dispatches[1]);
